@@ -365,7 +365,7 @@ pub fn f3(tier: Tier, with_inline_subsets: bool) -> Vec<(SemCase, Vec<String>, u
 // ---------------------------------------------------------------------------------------
 // F4.seq
 
-pub const SEQ_ALPHABET: [&str; 66] = [
+pub const SEQ_ALPHABET: [&str; 76] = [
     "a = 0;",
     "a = 1;",
     "a = b;",
@@ -433,24 +433,39 @@ pub const SEQ_ALPHABET: [&str; 66] = [
     "asm(\"LDA #5\", 2);",
     "asm(\"INX\", 1);",
     "asm(\"NOP\", 1);",
+    // added later (C-observable again; appended so that the indices above keep their meaning)
+    "X = 0;",
+    "a = X + 2;",
+    "a = X + 2; X = 0;",
+    "Y = 0;",
+    "b = Y | 1; Y = 0;",
+    "if (Y) b = 3;",
+    "if (g()) r = 5;",
+    "if (g() == 0) r = 6;",
+    "if (s) r = 7;",
+    "a = (b + 1) + !c;",
 ];
 
-pub const SEQ_C_OBSERVABLE: usize = 56;
-pub const SEQ_DECL: &str = "unsigned char a, b, c, r; short s; unsigned char arr[4]; char *p; char *const REG = 0x3e;\nvoid f() { c = c + 1; }\n";
+pub const SEQ_NOT_C_OBSERVABLE: std::ops::Range<usize> = 56..66;
+pub fn seq_c_observable(i: usize) -> bool {
+    !SEQ_NOT_C_OBSERVABLE.contains(&i)
+}
+pub const SEQ_DECL: &str = "unsigned char a, b, c, r; short s; unsigned char arr[4]; char *p; char *const REG = 0x3e;\nvoid f() { c = c + 1; }\nunsigned char g() { return c++; }\n";
 
-pub fn f4_indices(tier: Tier, alphabet_len: usize) -> Vec<Vec<usize>> {
+pub fn f4_indices(tier: Tier, observable_only: bool) -> Vec<Vec<usize>> {
+    let all: Vec<usize> = (0..SEQ_ALPHABET.len()).filter(|i| !observable_only || seq_c_observable(*i)).collect();
     let mut v: Vec<Vec<usize>> = Vec::new();
-    for i in 0..alphabet_len {
-        v.push(vec![i]);
+    for i in &all {
+        v.push(vec![*i]);
     }
-    for i in 0..alphabet_len {
-        for j in 0..alphabet_len {
-            v.push(vec![i, j]);
+    for i in &all {
+        for j in &all {
+            v.push(vec![*i, *j]);
         }
     }
     let core: Vec<usize> = match tier {
-        Tier::Quick => (0..alphabet_len).filter(|k| [0, 2, 4, 5, 8, 10, 12, 15, 16, 21, 24, 25, 26, 28, 29, 31, 32, 33, 35, 57, 59, 61, 63, 64, 45].contains(k)).collect(),
-        Tier::Thorough => (0..alphabet_len).collect(),
+        Tier::Quick => all.iter().cloned().filter(|k| [0, 2, 4, 5, 8, 10, 12, 15, 16, 21, 24, 25, 26, 28, 29, 31, 32, 33, 35, 57, 59, 61, 63, 64, 45, 66, 68, 72].contains(k)).collect(),
+        Tier::Thorough => all.clone(),
     };
     for i in &core {
         for j in &core {
@@ -461,7 +476,7 @@ pub fn f4_indices(tier: Tier, alphabet_len: usize) -> Vec<Vec<usize>> {
     }
     if tier == Tier::Quick {
         // the optimiser and the generator treat X and Y in separate (copied) code: a second core built around Y
-        let core_y: Vec<usize> = [2usize, 3, 6, 7, 9, 10, 11, 17, 18, 27, 30, 34, 36, 37, 38, 39, 40, 41, 42, 43, 44, 46, 47, 48, 49, 50, 51, 52, 53, 54, 55].iter().cloned().filter(|k| *k < alphabet_len).collect();
+        let core_y: Vec<usize> = [2usize, 3, 6, 7, 9, 10, 11, 17, 18, 27, 30, 34, 36, 37, 38, 39, 40, 41, 42, 43, 44, 46, 47, 48, 49, 50, 51, 52, 53, 54, 55, 69, 70, 71, 73, 74].iter().cloned().filter(|k| all.contains(k)).collect();
         for i in &core_y {
             for j in &core_y {
                 for k in &core_y {
@@ -478,7 +493,7 @@ pub fn f4_indices(tier: Tier, alphabet_len: usize) -> Vec<Vec<usize>> {
 pub fn f4_case(idxs: &[usize]) -> SemCase {
     let body: Vec<&str> = idxs.iter().map(|i| SEQ_ALPHABET[*i]).collect();
     let src = format!("{}void main()\n{{\n{}\n}}\n", SEQ_DECL, body.join("\n"));
-    let small: Vec<(&str, &[i32])> = vec![("a", &[0, 1, 5, 0x80, 255]), ("b", &[0, 1, 0xfe]), ("X", &[0, 1, 2]), ("Y", &[0, 2, 3]), ("s", &[0, 0xff, 0xffff]), ("r", &[0]), ("c", &[7])];
+    let small: Vec<(&str, &[i32])> = vec![("a", &[0, 1, 5, 0x80, 255]), ("b", &[0, 1, 0xfe]), ("X", &[0, 1, 2]), ("Y", &[0, 2, 3]), ("s", &[0, 0x100, 0x101, 0xffff]), ("r", &[0]), ("c", &[0, 0xff])];
     let mut c = case_from_text("F4.seq", &src, &small, vec!["seq"], 300);
     c.logged = vec!["REG".into()];
     c
